@@ -19,7 +19,8 @@ var (
 	prePT      = z.Struct(z.Schema{"a": z.Int().PostTransform(func(p any, c z.Ctx) error { return errors.New("x") })})
 	preFmt     = func(e *z.ZogIssue, c z.Ctx) { e.SetMessage("stale-formatter") }
 	preMsg     = z.Struct(z.Schema{"a": z.Int().GT(5, z.Message("mm")), "b": z.String().Min(9, z.Message("mm")).Catch("x")})
-	nPreludes  = 8
+	prePanic   = z.Struct(z.Schema{"a": z.Struct(z.Schema{"b": z.Slice(z.Int().TestFunc(func(v any, c z.Ctx) bool { panic("user callback panics") }))})})
+	nPreludes  = 9
 	preludeOff bool
 )
 
@@ -65,6 +66,18 @@ func runPrelude(i int) {
 		z.Issues.CollectMap(m)
 		m = preMsg.Validate(&preD{A: 1, B: "x"})
 		z.Issues.SanitizeMapAndCollect(m)
+	case 8: // an execution that dies in a user callback three levels deep and is recovered by the caller (as net/http does)
+		func() {
+			defer func() { recover() }()
+			var d struct{ A struct{ B []int } }
+			prePanic.Parse(map[string]any{"a": map[string]any{"b": []any{1, 2}}}, &d)
+		}()
+		func() {
+			defer func() { recover() }()
+			d := struct{ A struct{ B []int } }{}
+			d.A.B = []int{1}
+			prePanic.Validate(&d)
+		}()
 	case 6: // struct whose catching field is visited (possibly) last
 		var d preD
 		preStruct.Parse(map[string]any{"a": 1, "b": "123456789"}, &d)
